@@ -38,6 +38,26 @@ def render_nevra(rng, parts, style=None):
     return s
 
 
+def sibling_rpms_op(rng, pool, prev):
+    """Another sub-package of the source package of `prev`, filed in the same cell with the IDENTICAL srpm_nevra string
+    (what a compose tool does: the sub-packages of one build are added in a row).  None when `prev` is not a valid
+    binary/debug add."""
+    if prev["meta"].get("invalid") is not None or not prev["args"].get("srpm_nevra") or not prev["meta"].get("srpm_parts"):
+        return None
+    pkgs = [p for p in pool if p["src"] == prev["meta"]["srpm_parts"]]
+    if not pkgs:
+        return None
+    parts, category = rng.choice(pkgs[0]["subs"])
+    parts = dict(parts)
+    if rng.random() < 0.5:
+        parts["name"] = parts["name"] + rng.choice(["-devel", "-doc", "-tools"])
+    args = dict(prev["args"])
+    args.update({"nevra": render_nevra(rng, parts), "category": category,
+                 "path": "Packages/%s/%s-%s-%s.%s.rpm" % (parts["name"][0].lower(), parts["name"], parts["version"], parts["release"], parts["arch"])})
+    return {"kind": "rpms", "args": args, "meta": {"nevra_parts": parts, "srpm_parts": dict(prev["meta"]["srpm_parts"]), "invalid": None,
+                                                   "sibling_of_previous": True}}
+
+
 def any_tree_arch(rng, extra=()):
     """Mostly the common architectures; one time in eight any name of the documented table (amd64, arm64, sparc64v, ...)."""
     if rng.random() < 0.125:
